@@ -253,7 +253,7 @@ func checkC11(w *World, r *Report) {
 			}
 		})
 	}
-	r.floor("scope-granting constructs in IncludeNode.Render", n2, 2)
+	r.floor("scope-granting constructs in IncludeNode.Render", n2, 1)
 
 	// ---- R11.10 (the converse of R11.2): without `only` the included template reads what the
 	// includer reads.  A context built for the include that is NOT linked to the includer's
@@ -301,7 +301,7 @@ func checkC11(w *World, r *Report) {
 			}
 		})
 	}
-	r.floor("contexts built in IncludeNode.Render", n10, 2)
+	r.floor("contexts built in IncludeNode.Render", n10, 1)
 
 	// R11.3
 	notFoundFor := func(errv ssa.Value) *boolFlow {
